@@ -328,6 +328,18 @@ func (in *Interp) binop(st *State, op token.Token, a, b Value, t types.Type) Val
 		case token.ADD:
 			return smt.Concat(x, y)
 		}
+		if x.IsConst() && y.IsConst() {
+			switch op {
+			case token.LSS:
+				return smt.BoolC(x.S < y.S)
+			case token.LEQ:
+				return smt.BoolC(x.S <= y.S)
+			case token.GTR:
+				return smt.BoolC(x.S > y.S)
+			case token.GEQ:
+				return smt.BoolC(x.S >= y.S)
+			}
+		}
 	case smt.Int:
 		if x.IsConst() && y.IsConst() {
 			switch op {
